@@ -355,3 +355,24 @@ func coqStrList(l []string) string {
 	}
 	return "[" + strings.Join(qs, "; ") + "]"
 }
+
+// nestedRange: the one `for ... range <over>` statement found anywhere inside function fn, translated alone.
+func nestedRange(rel, fn, over string) string {
+	fd := funcDecl(rel, fn)
+	if fd == nil || fd.Body == nil {
+		die("function %s not found in %s (nested range)", fn, rel)
+	}
+	t := &decTr{g: load(rel), dropAssignFrom: map[string]bool{}}
+	var found []string
+	ast.Inspect(fd.Body, func(n ast.Node) bool {
+		if r, ok := n.(*ast.RangeStmt); ok && t.render(r.X) == over {
+			found = append(found, t.stmt(r))
+			return false
+		}
+		return true
+	})
+	if len(found) != 1 {
+		die("%s %s: %d range loops over %s, expected one", rel, fn, len(found), over)
+	}
+	return found[0]
+}
